@@ -1,3 +1,4 @@
+import WmModel.Props.C05Reg
 import WmModel.Props.C04
 import WmModel.Props.C11
 #print axioms Wm.GcSub.redelivery_only_after_nack
@@ -7,3 +8,4 @@ import WmModel.Props.C11
 #print axioms Wm.GcSub.nack_means_resend
 #print axioms Wm.GcSub.one_unsettled_inv
 #print axioms Wm.GcTopic.mid_publish
+#print axioms Wm.GcReg.send_starts_one_sender_per_registered
